@@ -225,6 +225,9 @@
 ; three choice functions handed to Store.walk (0: always left, 1: always right, other: arbitrary)
 (declare-fun codeOf (Int) Int)
 (assert (forall ((f Int)) (! (=> (and (>= f 900000) (< f 1000000)) (= (codeOf f) f)) :pattern ((codeOf f)))))
+; the comparator an application's KeyCompareForCollection callback returns for a collection name (A9: a function of the name)
+(declare-fun kcfc (Int Int) Int)
+;@spec kcfc smt=kcfc args=Int,Int res=Int
 (declare-fun walkDir (Int) Int)
 ; visitDir classifies the two choice functions handed to Store.visitNodes (0: ascendChoice, 1: descendChoice)
 (declare-fun visitDir (Int) Int)
